@@ -51,6 +51,8 @@ impl<'a, P: AsyncWrite + Unpin + 'a> Future for WriteAll<'a, P> {
                     if n == 0 {
                         if self.pos != 0 {
                             self.owner.poisoned = true;
+                            #[cfg(feature = "verif")]
+                            crate::common::verif::emit(crate::common::verif::Event::Poison);
                         }
                         return Poll::Ready(Err(io::ErrorKind::BrokenPipe.into()));
                     } else {
@@ -60,6 +62,8 @@ impl<'a, P: AsyncWrite + Unpin + 'a> Future for WriteAll<'a, P> {
                 Err(e) => {
                     if self.pos != 0 {
                         self.owner.poisoned = true;
+                        #[cfg(feature = "verif")]
+                        crate::common::verif::emit(crate::common::verif::Event::Poison);
                         return Poll::Ready(Err(e));
                     }
                 }
